@@ -2,13 +2,16 @@
 
    Go code modelled: internal/server/oauth/oauth.go ValidateJWT (result cache, expiry re-check,
    revocation check), jwt.go parseAndValidateJWT / selectVerificationKey (allowed algorithms, key
-   lookup, golang-jwt claim validation: exp required and now < exp, nbf, iss, aud), the user
-   extraction with ego.server.oauth.user.claim = "sub", and tokens.IsIDBlacklisted / tokens.Blacklist
-   as a growing set of revoked token IDs.
+   selection, golang-jwt claim validation: exp required and now < exp, nbf, iss, aud), jwks.go
+   keyByID / refreshJWKS / allKeys (the cached key set: when it is re-fetched — empty or older than
+   the TTL, or an unknown kid unless a miss-triggered refresh happened less than 30 s ago — and that a
+   successful fetch REPLACES it by the usable keys of the published document), the user extraction
+   with ego.server.oauth.user.claim = "sub", and tokens.IsIDBlacklisted / tokens.Blacklist as a
+   growing set of revoked token IDs.
 
-   Cryptography is an oracle: a raw token string is a [token] record whose fields t_key_found ("its
-   kid resolves to a published signing key") and t_sig_ok ("the signature verifies under that key")
-   are given; they are fixed per string (static JWKS). *)
+   Cryptography is an oracle: key material is a number; a token carries the material that signed it
+   (t_signer) and whether the signature bytes are intact (t_sig_valid); verification with the selected
+   key succeeds iff the selected material is t_signer and t_sig_valid. *)
 From Common Require Import Base.
 Open Scope Z_scope.
 
@@ -18,12 +21,20 @@ Inductive alg := RS256 | RS384 | RS512 | ES256 | ES384 | ES512 | HS256 | PS256 |
 Definition alg_allowed (a : alg) : bool :=
   match a with RS256 | RS384 | RS512 | ES256 | ES384 | ES512 => true | _ => false end.
 
+(* one entry of the IdP's JWKS document; k_usable = use is "" or "sig", kty RSA/EC, parses *)
+Record jwk := mkK { k_kid : str; k_mat : nat; k_usable : bool }.
+Definition keyset := list (str * nat).
+Definition usable (doc : list jwk) : keyset := map (fun k => (k_kid k, k_mat k)) (filter k_usable doc).
+Fixpoint find_kid (ks : keyset) (kid : str) : option nat :=
+  match ks with [] => None | (k, m) :: r => if str_eqb k kid then Some m else find_kid r kid end.
+
 Record token := mkT {
-  t_alg : alg; t_key_found : bool; t_sig_ok : bool;
+  t_alg : alg; t_kid : str; t_signer : nat; t_sig_valid : bool;
   t_iss : str; t_aud : list str; t_exp : option Z; t_nbf : option Z;
   t_jti : str; t_sub : str; t_client : str }.
 
-Record config := mkC { c_iss : str; c_aud : str }.     (* "" = not checked (jwt.go adds the option only when set) *)
+(* iss/aud "" = not checked (jwt.go adds the option only when set); c_ttl = JWKS cache TTL in seconds *)
+Record config := mkC { c_iss : str; c_aud : str; c_ttl : Z }.
 
 Definition is_nil (s : str) : bool := match s with [] => true | _ => false end.
 Definition client_prefix : str := [99; 108; 105; 101; 110; 116; 58]%N.   (* "client:" *)
@@ -38,14 +49,63 @@ Definition aud_ok (c : config) (t : token) : bool := is_nil (c_aud c) || existsb
 Definition exp_ok (now : Z) (t : token) : bool := match t_exp t with Some e => now <? e | None => false end.
 Definition nbf_ok (now : Z) (t : token) : bool := match t_nbf t with Some n => n <=? now | None => true end.
 
-(* parseAndValidateJWT: Some exp = verified claims *)
-Definition lib_verdict (c : config) (now : Z) (t : token) : option Z :=
-  if alg_allowed (t_alg t) && t_key_found t && t_sig_ok t && exp_ok now t && nbf_ok now t
-     && aud_ok c t && iss_ok c t
-  then t_exp t else None.
-
 Record entry := mkE { e_user : str; e_exp : Z; e_jti : str }.
-Record state := mkS { now : Z; cache : list (nat * entry); revoked : list str }.
+Record state := mkS {
+  now : Z; cache : list (nat * entry); revoked : list str;
+  published : list jwk;                  (* what the IdP serves now *)
+  jwks : keyset; fetched_at : Z;         (* jwksCache.keys / fetchedAt (meaningless while keys = []) *)
+  miss_last : option Z }.                (* missRefresh.last *)
+
+Definition set_cache (s : state) (c : list (nat * entry)) : state :=
+  mkS (now s) c (revoked s) (published s) (jwks s) (fetched_at s) (miss_last s).
+Definition set_keys (s : state) (ks : keyset) : state :=
+  mkS (now s) (cache s) (revoked s) (published s) ks (now s) (miss_last s).
+Definition set_miss (s : state) : state :=
+  mkS (now s) (cache s) (revoked s) (published s) (jwks s) (fetched_at s) (Some (now s)).
+
+(* refreshJWKS: a document without usable keys is an error and leaves the cache alone *)
+Definition refresh (s : state) : option state :=
+  match usable (published s) with [] => None | ks => Some (set_keys s ks) end.
+Definition refresh_find (s : state) (kid : str) : state * option nat :=
+  match refresh s with None => (s, None) | Some s' => (s', find_kid (jwks s') kid) end.
+Definition limited (s : state) : bool :=
+  match miss_last s with Some l => now s - l <? 30 | None => false end.
+Definition is_fresh (cfg : config) (s : state) : bool :=
+  negb (match jwks s with [] => true | _ => false end) && (now s - fetched_at s <? c_ttl cfg).
+
+(* jwks.go keyByID (kid <> "") *)
+Definition key_by_id (cfg : config) (s : state) (kid : str) : state * option nat :=
+  if is_fresh cfg s then
+    match find_kid (jwks s) kid with
+    | Some m => (s, Some m)
+    | None => if limited s then (s, None) else refresh_find (set_miss s) kid
+    end
+  else refresh_find s kid.
+
+(* jwt.go selectVerificationKey without kid: first cached key, fetching only when there is none *)
+Definition first_key (s : state) : state * option nat :=
+  match jwks s with
+  | (_, m) :: _ => (s, Some m)
+  | [] => match refresh s with
+          | None => (s, None)
+          | Some s' => (s', match jwks s' with (_, m) :: _ => Some m | [] => None end)
+          end
+  end.
+
+Definition select_key (cfg : config) (s : state) (t : token) : state * option nat :=
+  if negb (alg_allowed (t_alg t)) then (s, None)
+  else if is_nil (t_kid t) then first_key s else key_by_id cfg s (t_kid t).
+
+Definition claims_pass (c : config) (nw : Z) (t : token) : bool :=
+  exp_ok nw t && nbf_ok nw t && aud_ok c t && iss_ok c t.
+
+(* parseAndValidateJWT: key selection (may re-fetch the JWKS), signature, claims; Some exp = verified *)
+Definition lib_verdict (c : config) (s : state) (t : token) : state * option Z :=
+  let '(s', k) := select_key c s t in
+  (s', match k with
+       | Some m => if Nat.eqb m (t_signer t) && t_sig_valid t && claims_pass c (now s) t then t_exp t else None
+       | None => None
+       end).
 
 Inductive outcome := Accept (user : str) | Revoked | Rejected.
 
@@ -55,15 +115,17 @@ Definition evict (c : list (nat * entry)) (id : nat) : list (nat * entry) :=
   filter (fun x => negb (Nat.eqb (fst x) id)) c.
 Definition is_revoked (rv : list str) (jti : str) : bool := negb (is_nil jti) && existsb (str_eqb jti) rv.
 
-(* the cache-miss part of ValidateJWT; fixed = repaired code (revocation consulted before caching) *)
+(* the cache-miss part of ValidateJWT (c = the result cache after a stale entry was dropped);
+   fixed = repaired code (revocation consulted before caching) *)
 Definition validate_miss (fixed : bool) (cfg : config) (s : state) (c : list (nat * entry)) (id : nat) (t : token)
   : state * outcome :=
-  match lib_verdict cfg (now s) t with
-  | None => (mkS (now s) c (revoked s), Rejected)
+  let '(s1, v) := lib_verdict cfg s t in
+  match v with
+  | None => (set_cache s1 c, Rejected)
   | Some e =>
-      if fixed && is_revoked (revoked s) (t_jti t) then (mkS (now s) c (revoked s), Revoked)
-      else if is_nil (user_of t) then (mkS (now s) c (revoked s), Rejected)
-      else (mkS (now s) ((id, mkE (user_of t) e (t_jti t)) :: evict c id) (revoked s), Accept (user_of t))
+      if fixed && is_revoked (revoked s) (t_jti t) then (set_cache s1 c, Revoked)
+      else if is_nil (user_of t) then (set_cache s1 c, Rejected)
+      else (set_cache s1 ((id, mkE (user_of t) e (t_jti t)) :: evict c id), Accept (user_of t))
   end.
 
 Definition validate (fixed : bool) (cfg : config) (s : state) (id : nat) (t : token) : state * outcome :=
@@ -71,21 +133,23 @@ Definition validate (fixed : bool) (cfg : config) (s : state) (id : nat) (t : to
   | Some e =>
       if now s <? e_exp e then
         if is_revoked (revoked s) (e_jti e)
-        then (mkS (now s) (evict (cache s) id) (revoked s), Revoked)
+        then (set_cache s (evict (cache s) id), Revoked)
         else (s, Accept (e_user e))
       else validate_miss fixed cfg s (evict (cache s) id) id t
   | None => validate_miss fixed cfg s (cache s) id t
   end.
 
-Inductive op := Validate (id : nat) | Revoke (jti : str) | Advance (d : Z) | Evict (id : nat) | Purge.
+Inductive op := Validate (id : nat) | Revoke (jti : str) | Advance (d : Z) | Evict (id : nat) | Purge
+              | Rotate (doc : list jwk).      (* the IdP publishes a new JWKS document *)
 
 Definition step (fixed : bool) (cfg : config) (toks : nat -> token) (s : state) (o : op) : state * option outcome :=
   match o with
   | Validate id => let '(s', r) := validate fixed cfg s id (toks id) in (s', Some r)
-  | Revoke j => (mkS (now s) (cache s) (j :: revoked s), None)
-  | Advance d => (mkS (now s + Z.max 0 d) (cache s) (revoked s), None)
-  | Evict id => (mkS (now s) (evict (cache s) id) (revoked s), None)
-  | Purge => (mkS (now s) [] (revoked s), None)
+  | Revoke j => (mkS (now s) (cache s) (j :: revoked s) (published s) (jwks s) (fetched_at s) (miss_last s), None)
+  | Advance d => (mkS (now s + Z.max 0 d) (cache s) (revoked s) (published s) (jwks s) (fetched_at s) (miss_last s), None)
+  | Evict id => (set_cache s (evict (cache s) id), None)
+  | Purge => (set_cache s [], None)
+  | Rotate doc => (mkS (now s) (cache s) (revoked s) doc (jwks s) (fetched_at s) (miss_last s), None)
   end.
 
 Definition run (fixed : bool) (cfg : config) (toks : nat -> token) (h : list op) (s : state) : state :=
@@ -99,12 +163,24 @@ Fixpoint outcomes (fixed : bool) (cfg : config) (toks : nat -> token) (h : list 
               match x with Some y => y :: outcomes fixed cfg toks r s' | None => outcomes fixed cfg toks r s' end
   end.
 
-Definition init (t0 : Z) : state := mkS t0 [] [].
+(* server start: nothing cached, no keys fetched yet; the IdP serves doc0 *)
+Definition init (t0 : Z) (doc0 : list jwk) : state := mkS t0 [] [] doc0 [] 0 None.
 
-(* the property's acceptance condition, as a decidable predicate on the token's own fields *)
-Definition good (cfg : config) (nw : Z) (rv : list str) (t : token) : bool :=
-  alg_allowed (t_alg t) && t_key_found t && t_sig_ok t && iss_ok cfg t && aud_ok cfg t
-  && exp_ok nw t && nbf_ok nw t && negb (is_revoked rv (t_jti t)).
+(* the claim clauses of the property, as a decidable predicate on the token's own fields *)
+Definition claims_ok (cfg : config) (nw : Z) (rv : list str) (t : token) : bool :=
+  alg_allowed (t_alg t) && iss_ok cfg t && aud_ok cfg t && exp_ok nw t && nbf_ok nw t
+  && negb (is_revoked rv (t_jti t)).
+
+(* the key clause, on the state the validation leaves behind: the signature is intact and the signing
+   material is what the cached key set holds for the token's kid (first key when there is no kid); with a
+   kid, that key set was fetched less than the TTL ago *)
+Definition key_now (cfg : config) (s2 : state) (t : token) : Prop :=
+  t_sig_valid t = true /\
+  if is_nil (t_kid t) then exists k r, jwks s2 = (k, t_signer t) :: r
+  else find_kid (jwks s2) (t_kid t) = Some (t_signer t) /\ now s2 - fetched_at s2 < c_ttl cfg.
+
+(* a result-cache hit: the signature is not verified again *)
+Definition hit (s : state) (id : nat) : Prop := exists e, lookup (cache s) id = Some e /\ now s < e_exp e.
 
 Definition accepted (r : state * outcome) : bool := match snd r with Accept _ => true | _ => false end.
 
